@@ -1,6 +1,7 @@
 /-!
 # Mode lifecycle (C07) — model of `Mode.start/_started/_mode_started_callback/stop/_stopped/_mode_stopped_callback`
-(`mpf/core/mode.py`, after the D12 repairs) and `ModeController.set_mode_state` (`mpf/core/mode_controller.py`)
+(`mpf/core/mode.py`, after the D12 repairs and with `_finish_stop`: the cleanup of a stop runs once, in
+`_mode_stopped_callback` or at the beginning of the next accepted `start`, whichever comes first) and `ModeController.set_mode_state` (`mpf/core/mode_controller.py`)
 
 * the event bus is not re-modelled: *when* the callback of `mode_<n>_starting` / `mode_<n>_started` / `mode_<n>_stopping` /
   `mode_<n>_stopped` runs is a scheduler choice and therefore an input op (`started`, `startedCb`, `stopped`,
@@ -40,6 +41,7 @@ structure MState where
   pStartedCb : Nat := 0            -- `mode_<n>_started` posted, `_mode_started_callback` not yet run
   pStoppedCb : Nat := 0            -- `mode_<n>_stopped` posted, `_mode_stopped_callback` not yet run
   stopMethods : Bool := false
+  cleanupPending : Bool := false   -- `_stop_cleanup_pending`: `_stopped` has run, `_finish_stop` not yet
   deriving DecidableEq, Repr
 
 inductive Ev | ws | sg | sd | wp | pg | pd
@@ -86,18 +88,38 @@ def mkEnts (owner : Nat) (cls : Cls) : Nat → List Ent
 
 def ownedBy (m : Nat) (e : Ent) : Bool := e.owner == m
 
+/-- `_finish_stop`: `_remove_mode_event_handlers`, `_remove_mode_switch_handlers`, `delay.clear()`, `_remove_mode_devices`
+(only once per stop) -/
+def cleanup (st : St) (m : Nat) : St :=
+  if (st.modes m).cleanupPending then
+    { st with
+      modes := upd st.modes m { (st.modes m) with cleanupPending := false },
+      bus := st.bus.filter (fun e => !(ownedBy m e && (e.cls == .own || e.cls == .dev))),
+      sw := st.sw.filter (fun e => !ownedBy m e),
+      dl := st.dl.filter (fun e => !ownedBy m e) }
+  else st
+
+/-- the body of an accepted `Mode.start` -/
+def startCore (st : St) (m : Nat) (prio : Option Int) (queue : Bool) : St :=
+  let ms := st.modes m
+  let c := st.cfg m
+  { st with
+    modes := upd st.modes m { ms with starting := true, prio := prio.getD c.prio,
+                                      waitQ := ms.waitQ || (c.useWait && queue), stopMethods := true },
+    bus := st.bus ++ mkEnts m .own c.nOwn ++ mkEnts m .cfg c.nCfg,
+    log := st.log ++ [(m, .ws), (m, .sg)] }
+
+/-- `_mode_stopped_callback` has been called (its cleanup is `cleanup`) -/
+def cbCore (st : St) (m : Nat) : St :=
+  { st with modes := upd st.modes m { (st.modes m) with pStoppedCb := (st.modes m).pStoppedCb - 1 } }
+
 /-- one step; `none` = that step is not enabled in this state.  Requests that the guards of `start`/`stop` turn down are
 enabled and change nothing. -/
 def step (st : St) : Op → Option St
   | .start m prio queue gameOk =>
     let ms := st.modes m
-    let c := st.cfg m
     if !gameOk || ms.active || ms.starting then some st
-    else some { st with
-      modes := upd st.modes m { ms with starting := true, prio := prio.getD c.prio,
-                                        waitQ := ms.waitQ || (c.useWait && queue), stopMethods := true },
-      bus := st.bus ++ mkEnts m .own c.nOwn ++ mkEnts m .cfg c.nCfg,
-      log := st.log ++ [(m, .ws), (m, .sg)] }
+    else some (startCore (cleanup st m) m prio queue)   -- a restart from a `mode_<n>_stopped` handler finishes the stop first
   | .started m =>
     let ms := st.modes m
     if !ms.starting then none
@@ -125,18 +147,15 @@ def step (st : St) : Op → Option St
     if !ms.stopping then none
     else some { st with
       modes := upd st.modes m { ms with prio := 0, active := false, stopping := false, waitQ := false,
-                                        stopMethods := false, pStoppedCb := ms.pStoppedCb + 1 },
+                                        stopMethods := false, pStoppedCb := ms.pStoppedCb + 1,
+                                        cleanupPending := true },
       act := if ms.active then st.act.filter (fun x => x != m) else st.act,
       bus := st.bus.filter (fun e => !(ownedBy m e && e.cls == .cfg)),
       log := st.log ++ [(m, .pd)] }
   | .stoppedCb m =>
     let ms := st.modes m
     if ms.pStoppedCb = 0 then none
-    else some { st with
-      modes := upd st.modes m { ms with pStoppedCb := ms.pStoppedCb - 1 },
-      bus := st.bus.filter (fun e => !(ownedBy m e && (e.cls == .own || e.cls == .dev))),
-      sw := st.sw.filter (fun e => !ownedBy m e),
-      dl := st.dl.filter (fun e => !ownedBy m e) }
+    else some (cbCore (cleanup st m) m)
   | .addH m id => some { st with bus := st.bus ++ [⟨m, .own, 1000 + id⟩] }
   | .addSw m id => some { st with sw := st.sw ++ [⟨m, .own, id⟩] }
   | .addDl m id => some { st with dl := st.dl ++ [⟨m, .own, id⟩] }
